@@ -50,6 +50,12 @@ def rule_r1(ctx):
     comps = [n for n in ast.walk(pp) if isinstance(n, ast.ListComp) and len(n.generators) == 1 and src(n.generators[0].iter) == "col.states" and src(n.elt) == src(n.generators[0].target)]
     scan = any(isinstance(n, ast.For) and src(n.iter) == "reversed(self.table)" for n in walk_local(pp))
     if len(comps) != 1 or not scan:
+        single = [x for x in ast.walk(pp) if isinstance(x, ast.Call) and call_name(x) == "next" and x.args and isinstance(x.args[0], ast.GeneratorExp) and "col.states" in src(x.args[0].generators[0].iter)]
+        if single and scan:
+            ctx.viol("R1-rejection-total", f"{PARSER}:EarleyParser.parse_prefix", "ALL start-symbol items of the column are handed to parse()", site(single[0]),
+                     "only one start item per column is returned (the first of `" + src(single[0].args[0].generators[0].iter)[:40] + "`): parse() looks for a FINISHED item among the returned ones; "
+                     "with a nullable tail (<start> ::= <word><suffix>, <suffix> ::= \"\" | \"a\") the finished item is not the most recently added one and a member of the language is rejected")
+            return
         raise Unrecognised("C10.R1", f"{PARSER}:EarleyParser.parse_prefix", "selection of the start-symbol items (reversed table scan) not found")
     conds = " and ".join(" ".join(src(i).split()) for i in comps[0].generators[0].ifs)
     v = src(comps[0].generators[0].target)
@@ -216,7 +222,42 @@ def rule_r6(ctx):
     ctx.check(ok, "R6-items", f"{PARSER}:Column.add", "items unique per column; end column recorded", site(add), "Column.add changed", "dedup + e_col")
 
 
+def rule_r7(ctx):
+    """Parser state: (a) the chart is rebuilt for every parse_prefix call (a reuse test would have to include the start symbol, which parse_on swaps);
+    (b) forest nodes carry the chart they were built from, so the lazy generators returned by parse() do not read whatever chart the parser holds later."""
+    pp = ctx.repo.func(PARSER, "EarleyParser.parse_prefix", "C10.R7")
+    c = f"{PARSER}:EarleyParser.parse_prefix"
+    asg = [a for a in walk_local(pp) if isinstance(a, ast.Assign) and src(a.targets[0]) == "self.table"]
+    if len(asg) != 1 or "self.chart_parse(text, self.start_symbol())" not in " ".join(src(asg[0].value).split()):
+        raise Unrecognised("C10.R7", c, "self.table = self.chart_parse(text, self.start_symbol()) not found")
+    fs = facts(asg[0])
+    if not fs:
+        ctx.ok("R7-chart-per-call", c, "chart rebuilt on every call", site(asg[0]), "unconditional")
+    else:
+        mentions_start = any("start_symbol" in f_.text for f_ in fs)
+        ctx.check(mentions_start, "R7-chart-per-call", c, "chart reuse depends on text AND start symbol", site(asg[0]),
+                  f"the chart is only rebuilt under {[f_.text for f_ in fs]}: parse_on() swaps the start symbol, so asking the same parser about the same text for another nonterminal reuses the chart "
+                  "of the previous start symbol - strings of the requested nonterminal are rejected and others accepted", "unconditional, or keyed by (text, start symbol)")
+    fo = ctx.repo.func(PARSER, "EarleyParser.forest", "C10.R7")
+    c2 = f"{PARSER}:EarleyParser.forest"
+    t = " ".join(src(fo).split())
+    params = [a.arg for a in fo.args.args]
+    if "self.parse_forest(chart, s)" in t and "chart" in params:
+        ctx.ok("R7-forest-carries-chart", c2, "sub-forests are resolved against the chart stored in the node", site(fo), "parse_forest(chart, s)")
+    elif "self.parse_forest(self.table" in t:
+        ctx.viol("R7-forest-carries-chart", c2, "sub-forests are resolved against the chart stored in the node", site(fo),
+                 "sub-forests are resolved lazily against `self.table`, the parser's CURRENT chart: parse() returns a generator, so after `g = p.parse(a); next(g); p.parse(b)` the remaining trees of "
+                 "`a` are built from b's chart (they unparse to b or raise IndexError)")
+    else:
+        raise Unrecognised("C10.R7", c2, "forest() not in the recognised shape")
+    pf = ctx.repo.func(PARSER, "EarleyParser.parse_forest", "C10.R7")
+    ok = "(v, k, chart) for v, k in reversed(pathexpr)" in " ".join(src(pf).split())
+    if not ok and "self.parse_forest(self.table" not in t:
+        raise Unrecognised("C10.R7", f"{PARSER}:EarleyParser.parse_forest", "forest entries (v, k, chart) not found")
+
+
 def run(ctx) -> str:
+    ctx.guarded("R7", lambda: rule_r7(ctx))
     ctx.guarded("R6", lambda: rule_r6(ctx))
     ctx.guarded("R5", lambda: rule_r5(ctx))
     ctx.guarded("R1", lambda: rule_r1(ctx))
